@@ -315,6 +315,7 @@ inline int run(
   c.prop = prop;
   std::string outpath, statepath;
   int64_t cases = -1;
+  double fraction = 1.0;
   if (const char * e = getenv("VERIF_SEED")) {c.seed = strtoull(e, nullptr, 10);}
   for (int i = 1; i < argc; ++i) {
     std::string a = argv[i];
@@ -325,13 +326,19 @@ inline int run(
       std::string v = val(); sscanf(v.c_str(), "%d/%d", &c.shard, &c.nshards);
     } else if (a == "--only") {c.only = strtoll(val().c_str(), nullptr, 10);} else if (a == "--start") {
       c.start = strtoull(val().c_str(), nullptr, 10);
-    } else if (a == "--cases") {cases = strtoll(val().c_str(), nullptr, 10);} else if (a == "--out") {
+    } else if (a == "--cases") {cases = strtoll(val().c_str(), nullptr, 10);} else if (a == "--fraction") {
+      fraction = strtod(val().c_str(), nullptr);
+    } else if (a == "--out") {
       outpath = val();
     } else if (a == "--state") {statepath = val();} else if (a == "--verbose") {c.verbose = true;} else {
       fprintf(stderr, "unknown argument %s\n", a.c_str()); return 2;
     }
   }
   c.N = cases >= 0 ? static_cast<uint64_t>(cases) : (c.tier == "thorough" ? sizes.thorough : sizes.quick);
+  if (cases < 0 && fraction > 0 && fraction < 1) {
+    // a secondary build flavour repeats the first part of the tier's case sequence
+    c.N = std::max<uint64_t>(1, static_cast<uint64_t>(static_cast<double>(c.N) * fraction));
+  }
   c.out = outpath.empty() ? stdout : fopen(outpath.c_str(), "a");
   if (!c.out) {perror("open out"); return 2;}
   static uint64_t dummy_state[2];
